@@ -65,7 +65,7 @@ def clean_composite_curve_ends(
     y_vals = np.array(y_vals)
     x_vals = np.array(x_vals)
     
-    if np.all(np.isclose(x_vals, 0.0, atol=tol)) or np.abs(x_vals.var()) < tol:
+    if np.isnan(x_vals).all() or np.all(np.isclose(x_vals, 0.0, atol=tol)) or np.abs(x_vals.var()) < tol:
         return np.array([]), np.array([])
     
     mask_0 = ~np.isclose(x_vals, x_vals[0] * np.ones(len(x_vals)), atol=tol)
